@@ -519,6 +519,16 @@ def exec (s : St) (w : List String) : St × J :=
     let d := (tokI delim).map (fun c => Char.ofNat c.toNat)
     let c := Char.ofNat (tokN cm)
     storeRes s (tokN dst) (if kind == "1" then parseInteractionsText (cls == "1") c d lines else parseSnapshotsText (cls == "1") c d lines)
+  | "ptxts" :: kind :: dst :: cls :: nd :: rest =>
+    -- ptxts kind dst cls nd d1..dnd nc c1..cnc n (len codes)* : markers of several characters; nd = "-" is delimiter=None
+    let (delim, rest) : Option (List Char) × List String :=
+      if nd == "-" then (none, rest) else (some (charsOf (rest.take (tokN nd))), rest.drop (tokN nd))
+    let nc := tokN (rest.headD "0")
+    let cm := charsOf ((rest.drop 1).take nc)
+    let rest := (rest.drop 1).drop nc
+    let lines := (parseRows (tokN (rest.headD "0")) (rest.drop 1)).map charsOf
+    storeRes s (tokN dst) (if kind == "1" then parseInteractionsTextS (cls == "1") cm delim lines
+                           else parseSnapshotsTextS (cls == "1") cm delim lines)
   | "conf" :: k :: start :: delta :: pt :: n :: alphas =>
     withG s k (fun g =>
       match g.deltaConformity (start.toInt?.getD 0) (delta.toInt?.getD 0) ((alphas.take (tokN n)).map (fun a => tokN a / 100)) (tokN pt) with
